@@ -14,14 +14,16 @@ from .c01 import reaction_sites
 EXPLANATION = (
     "R0 (shared with C01.R2/R3): every reaction adds the identical k*prod(y) monomial once per product occurrence and subtracts "
     "it once per reactant occurrence, unconditionally -- so sum_i w_i*ydot_i = sum_react k*prod(y)*(sum_products w - sum_reactants w), "
-    "which vanishes for any weight w (element count, charge) a balanced reaction preserves. R1 GetElementAbund sums "
+    "which vanishes for any weight w (element count, charge) a balanced reaction preserves; no species is dropped from a reactant / product "
+    "list for being falsy (Species defines no __bool__/__len__). R1 GetElementAbund sums "
     "count(spec, element)*y[IDX_spec] over the same unfiltered network.species, guarded by the IDX_ELEM_ macro of the loop's own "
     "element, exactly as the macro header defines it. R2 every way two species can be identified (each disjunct of Species.__eq__) "
     "forces equal composition and charge: same name, or ice with equal basename+charge+group, or grains (no elements) with equal "
     "group+charge, or both electrons. R3 electrons hash to one constant so that all spellings share one ODE variable. R4 (shared with "
     "C09.R6) distinct species get distinct IDX_ identifiers: Species.alias is <phase><basename><injective charge run> and is never "
     "post-processed by deleting characters. R5 (shared with C01.R9) nothing but the pasted equations writes ydot and the working copy of "
-    "the abundances is the abundance vector. R6 the composition table accumulates: every write to element_count adds or creates a new entry.")
+    "the abundances is the abundance vector. R6 the composition table accumulates: every write to element_count adds or creates a new entry, and every occurrence of an element in the "
+    "scanned formula reaches that write (no dict-by-plain-assignment / set keyed by the element between the matches and the count).")
 ASSUMPTIONS = [
     "whether an input network is balanced is the user's premise",
     "the composition assigned to a given name is C08's subject (not decidable statically)",
@@ -45,6 +47,8 @@ def check(ctx):
     ctx.absorb(c01.check, "R0", only=lambda o: o.rule in ("R1", "R2", "R3", "R4", "R5", "R8"))
     _r1(ctx)
     _r2(ctx)
+    # a species is never dropped from a reactant / product list for being "empty" (shared with C01.R6)
+    c01.species_truthiness(ctx, "R0")
     # R4: one ODE variable per species -- the identifier IDX_<alias> is an injective function of the species (rule shared with C09.R6)
     from . import c09
     ctx.absorb(lambda sub: c09._alias_rule(sub, package(sub.tree)), "R4", only=lambda o: o.key.startswith("Species.alias"))
@@ -56,6 +60,22 @@ def check(ctx):
     # occurrences count: no set / dict keyed by the species stands between a reactant list and the terms built from it
     from ..multiplicity import rule as multiplicity_rule
     multiplicity_rule(ctx, "R7", ['ode'], "the conserved sums")
+
+
+def _reads_same_entry(v, table, idx):
+    """v = <current count of entry idx of the table, 0 when absent> + <something>"""
+    if idx is None or v[0] != "binop" or v[1] != "Add":
+        return False
+
+    def is_table(x):
+        return (table is not None and x == table) or (x[0] == "attr" and x[2] == "element_count")
+    for a in (v[2], v[3]):
+        if a[0] == "meth" and is_table(a[1]) and a[2] == "get" and a[3] == (idx, ("const", 0)) and not a[4]:
+            return True
+        if a[0] == "bool" and a[1] == "Or" and len(a[2]) == 2 and a[2][1] == ("const", 0) and a[2][0][0] == "meth" and is_table(a[2][0][1]) \
+                and a[2][0][2] == "get" and a[2][0][3] == (idx,):
+            return True         # T.get(e) or 0
+    return False
 
 
 def _r6(ctx):
@@ -75,9 +95,13 @@ def _r6(ctx):
             n += 1
             g = [(show(simp(c)).replace(" ", ""), p) for c, p in f.guards]
             absent = any((("inself.element_count" in c and "notin" not in c) and p is False) or ("notinself.element_count" in c and p is True) for c, p in g)
-            ok = (f.kind == "augstore" and getattr(f, "op", None) == "Add") or (f.kind == "store" and absent)
+            # T[e] = T.get(e, 0) + n  /  T[e] = n + T[e]: read-add-write of the same entry is `+=` (and creates the entry)
+            readadd = f.kind == "store" and _reads_same_entry(simp(f.value), f.extra.get("base"), simp(f.index) if f.index else None)
+            if readadd:
+                n += 1          # plays both roles: the accumulating write and the creating write
+            ok = (f.kind == "augstore" and getattr(f, "op", None) == "Add") or (f.kind == "store" and absent) or readadd
             ctx.check(ok, "R6", f"element_count:{f.kind}", (SPECIES, f.line),
-                      "adds to the count" if f.kind == "augstore" else "creates the entry only for an element not counted yet" if ok else
+                      "adds to the count" if f.kind == "augstore" or readadd else "creates the entry only for an element not counted yet" if ok else
                       "the count of an element is OVERWRITTEN when the element is met again: CH3OH gets H:1, the element totals and the renormalisation use wrong compositions",
                       expected="element_count[e] += n, or = n only when e is not in the table", found=f"{f.kind} guarded by {[c for c, _ in g][-1:]}")
         elif f.kind == "call" and f.value and f.value[0] == "meth" and f.value[2] in ("update", "setdefault", "__setitem__") and show(f.value[1]).endswith("element_count"):
@@ -86,19 +110,79 @@ def _r6(ctx):
                     f"element_count.{f.value[2]}(..) on a plain dict replaces the entry of an element met again instead of adding to it (dict.update is not Counter.update)",
                     expected="element_count[e] += n", found=show(f.value)[:80])
     ctx.floor("R6", "writes to element_count", n, 2)
+    _r6_occurrences(ctx, pkg, mname)
 
 
-def _resolve(e, sets):
-    if isinstance(e, tuple) and len(e) == 2 and e[0] == "name" and e[1] in sets:
-        return _resolve(sets[e[1]], sets)
-    if isinstance(e, tuple):
-        return tuple(_resolve(x, sets) if isinstance(x, tuple) else x for x in e)
-    return e
+def _r6_occurrences(ctx, pkg, count_name):
+    """Every OCCURRENCE of an element in the formula reaches the accumulating count method: between the regex matches and the call
+    there is no container that identifies equal element names (a dict keyed by the element filled by plain assignment, a set) --
+    CH3OH has H at two places, both count."""
+    from ..valueflow import Flow, show, simp, walk
+    from ..pymodel import species_parse_method
+    pname, pfn = species_parse_method(pkg)
+    ctx.saw(SPECIES, f"Species.{pname}")
+    fl = Flow(pfn, SPECIES)
+    calls = [f for f in fl.facts if f.kind == "call" and f.target == count_name and f.value and f.value[0] == "meth" and f.value[3]]
+    ctx.floor("R6", "calls of the count method while scanning the formula", len(calls), 1, (SPECIES, pfn.lineno))
+
+    def container(x):
+        """local container iterated to produce x: name or None"""
+        while x[0] == "meth" and x[2] in ("items", "keys") and not x[3]:
+            x = x[1]
+        if x[0] == "call" and x[1] in (("global", "sorted"), ("global", "list"), ("global", "tuple")) and x[2]:
+            return container(x[2][0])
+        return x[1] if x[0] == "acc" else None
+
+    for f in calls:
+        arg = simp(f.value[3][0])
+        key = f"Species.{pname}:{count_name}(..):occurrences"
+        verdict = None
+        for t in walk(arg):
+            if not (isinstance(t, tuple) and t and t[0] in ("key", "elem") and len(t) == 3):
+                continue
+            src = t[1]
+            if src[0] == "call" and src[1] in (("global", "set"), ("global", "frozenset")):
+                verdict = f"the element names are iterated from a set ({show(src)[:60]})"
+                break
+            if src[0] == "meth" and src[2] == "fromkeys":
+                verdict = f"the element names are iterated from dict.fromkeys ({show(src)[:60]})"
+                break
+            name = container(src)
+            if name is None:
+                continue
+            fill = [g for g in fl.facts if g.target == name]
+            inits = [simp(g.value) for g in fill if g.kind == "init"]
+            is_map = any(v == ("dict", ()) or (v[0] == "call" and v[1] in (("global", "dict"), ("global", "OrderedDict")) and not v[2]) for v in inits)
+            is_set = any(v == ("set", ()) or (v[0] == "call" and v[1] == ("global", "set") and not v[2]) for v in inits)
+            if is_set and t[0] in ("key", "elem"):
+                verdict = f"the element names are collected in the set `{name}` before they are counted"
+                break
+            if is_map:
+                plain = [g for g in fill if g.kind == "store" and not _reads_same_entry(simp(g.value), ("acc", name), simp(g.index) if g.index else None)
+                         and not _reads_same_entry(simp(g.value), ("global", name), simp(g.index) if g.index else None)]
+                if plain:
+                    verdict = (f"the matches are first collected in the dict `{name}` by plain assignment (line {plain[0].line}) and counted once per key")
+                    break
+        if verdict:
+            ctx.bad("R6", key, (SPECIES, f.line),
+                    verdict + ": an element written at two places of a formula (CH3OH, HCOOH) keeps only one of its counts, GetElementAbund and the "
+                    "renormalisation undercount those species",
+                    expected="one call per regex match (occurrence), or a container that adds the counts", found=show(simp(f.value))[:120])
+        else:
+            ctx.ok("R6", key, (SPECIES, f.line), "called once per match of the formula scan (no de-duplicating container in between)")
+
+
+def _mentions(e, name):
+    return e == name or (isinstance(e, tuple) and any(_mentions(x, name) for x in e if isinstance(x, tuple)))
+
+
+SPECIES_SEQ = ("attr", ("name", "network"), "species")
 
 
 def _r1(ctx):
     ctx.saw(PHYS)
-    items = J.flatten(ctx.tree, PHYS, {})
+    tree = ctx.tree
+    items = J.flatten(tree, PHYS, {})
     sk = Skel(items)
     fn = "GetElementAbund"
     if not sk.func(fn):
@@ -112,74 +196,104 @@ def _r1(ctx):
     ctx.check(o[2] == ("attr", ("name", "network"), "elements") and o[7] is None, "R1", f"{fn}:element-loop", (PHYS, o[5]),
               "one branch per element of the unfiltered network.elements", found=J.show(o[2]))
     evar = o[1]
-    # walk the body in order, tracking {% set %}
-    sets = {}
-    guard_expr = None
-    inner = None
-    prev_text = ""
-    for it in o[3]:
+    # bindings made before the loop (function scope) stay visible inside it
+    env0 = {}
+    for it, off in sk.items_in(fn):
+        if it is o:
+            break
         if it[0] == "set" and it[1][0] == "name":
-            sets[it[1][1]] = _resolve(it[2], sets)
-        elif it[0] == "text":
-            prev_text = it[1]
-        elif it[0] == "out":
-            if re.search(r"elemidx\s*==\s*IDX_ELEM_$", prev_text):
-                guard_expr = (_resolve(it[1], sets), it[2])
-            prev_text = ""
-        elif it[0] == "for":
-            inner = (it, dict(sets))
-    ctx.check(guard_expr is not None and guard_expr[0] == FIRST_KEY(evar), "R1", f"{fn}:guard", (PHYS, guard_expr[1] if guard_expr else o[5]),
-              "branch guard is `elemidx == IDX_ELEM_<first key of this element's element_count>`",
-              expected=J.show(FIRST_KEY(evar)), found=J.show(guard_expr[0]) if guard_expr else "no guard")
+            env0[it[1][1]] = J.subst(J.inline_macros(tree, it[-1], it[2]), env0)
+    # what the branch prints before the species loop: `if (elemidx == IDX_ELEM_<..>) {`
+    pieces = J.printed(tree, o[3], dict(env0))
+    guard_expr = None
+    inner = []
+    macro_uses = 0
+    for i, p in enumerate(pieces):
+        if p[0] == "lit" and p[1].endswith("IDX_ELEM_"):
+            macro_uses += 1
+            if re.search(r"(elemidx\s*==|case)\s*IDX_ELEM_$", p[1]) and i + 1 < len(pieces) and pieces[i + 1][0] == "val":
+                guard_expr = pieces[i + 1][1]
+        if p[0] == "ctl" and p[1][0] == "for":
+            inner.append(p)
+    if guard_expr is None or macro_uses != 1:
+        ctx.unrec("R1", f"{fn}:guard", (PHYS, o[5]), "the branch of one element is not selected by `elemidx == IDX_ELEM_<..>`: shape not understood")
+    else:
+        ctx.check(guard_expr == FIRST_KEY(evar), "R1", f"{fn}:guard", (PHYS, o[5]),
+                  "branch guard is `elemidx == IDX_ELEM_<first key of this element's element_count>`",
+                  expected=J.show(FIRST_KEY(evar)), found=J.show(guard_expr))
     # the macro header uses the same suffix expression over the same sequence, paired with loop.index0
-    mit = J.flatten(ctx.tree, MACROS, {})
+    mit = J.flatten(tree, MACROS, {})
     ctx.saw(MACROS)
     mloops = [it for it, st in J.walk_items(mit) if it[0] == "for" and J.path(it[2]) == "network.elements"]
     okm = False
+    foundm = None
     if len(mloops) == 1:
         ml = mloops[0]
-        outs = [x for x in ml[3] if x[0] == "out"]
-        txt = "".join(x[1] for x in ml[3] if x[0] == "text")
-        okm = len(outs) == 2 and outs[0][1] == FIRST_KEY(ml[1]) and outs[1][1] == ("attr", ("name", "loop"), "index0") and "#define IDX_ELEM_" in txt
+        got = J.squeeze(J.printed(tree, ml[3], {}))
+        want = [("lit", "#define IDX_ELEM_"), ("val", FIRST_KEY(ml[1])), ("lit", " "), ("val", ("attr", ("name", "loop"), "index0"))]
+        okm = got == want and ml[7] is None and ml[2] == ("attr", ("name", "network"), "elements")
+        foundm = " ".join(p[1] if p[0] == "lit" else "{{ " + J.show(p[-1]) + " }}" if p[0] != "ctl" else "{% .. %}" for p in got)
     ctx.check(okm, "R1", "macros:IDX_ELEM", (MACROS, mloops[0][5] if mloops else 0),
-              "the header defines IDX_ELEM_<first key> = loop.index0 over the same network.elements")
-    if inner is None:
+              "the header defines IDX_ELEM_<first key> = loop.index0 over the same network.elements", found=foundm)
+    if not inner:
         ctx.missing("R1", f"{fn}:species-loop", (PHYS, o[5]), "no loop over the species inside the element branch")
         return
-    it, sets0 = inner
-    itx = _resolve(it[2], sets0)
-    spec_ab = ("filter", "map", ("filter", "map", ("filter", "map", ("attr", ("name", "network"), "species"), (), (("attribute", ("const", "alias")),)),
-                                 (("const", "prefix"), ("const", "y[IDX_")), ()), (("const", "suffix"), ("const", "]")), ())
-    want_iter = ("call", ("name", "zip"), (("attr", ("name", "network"), "species"), spec_ab), ())
-    ctx.check(itx == want_iter and it[7] is None, "R1", f"{fn}:species-loop", (PHYS, it[5]),
-              "the sum ranges over zip(network.species, y[IDX_<alias>] of the same network.species)",
-              expected=J.show(want_iter), found=J.show(itx))
-    if it[1][0] not in ("tuple", "list") or len(it[1][1]) != 2:
-        ctx.bad("R1", f"{fn}:species-loop-vars", (PHYS, it[5]), "loop must bind (species, abundance symbol)", found=J.show(it[1]))
+    _, it, env1, _g = inner[-1]
+    # the loop is normalised to: one species variable ranging over a base sequence, plus names computed from that element
+    itx = J.expr_at(tree, it, it[2], env1)
+    env2 = dict(env1)
+    svar = None
+    if itx[0] == "call" and itx[1] == ("name", "zip") and not itx[3] and it[1][0] in ("tuple", "list") and len(it[1][1]) == len(itx[2]) \
+            and all(t[0] == "name" for t in it[1][1]):
+        # zip(S, S | map(..)): the k-th name is the k-th element-wise expression of one element of S
+        svar = it[1][1][0]
+        base = itx[2][0]
+        for t, seq in list(zip(it[1][1], itx[2]))[1:]:
+            b2, ex = J.elementwise(seq, svar)
+            if b2 != base:
+                ctx.bad("R1", f"{fn}:species-loop", (PHYS, it[5]),
+                        "the species and the abundance symbols paired by zip() do not come from the same sequence",
+                        expected=f"zip({J.show(base)}, {J.show(base)} | map(..))", found=J.show(itx))
+                return
+            env2[t[1]] = ex
+    elif it[1][0] == "name":
+        svar, base = it[1], itx
+    else:
+        ctx.unrec("R1", f"{fn}:species-loop", (PHYS, it[5]), f"loop over {J.show(itx)} binding {J.show(it[1])}: shape not understood")
         return
-    svar, abvar = it[1][1]
-    sets1 = dict(sets0)
-    term = None
-    for x, st in J.walk_items(it[3]):
-        if x[0] == "set" and x[1][0] == "name":
-            sets1[x[1][1]] = _resolve(x[2], sets1)
-        if x[0] == "out" and x[1][0] == "concat":
-            guards = [g for g in st if g[0] in ("if+", "if-")]
-            term = (x, guards, dict(sets1))
-    if term is None:
-        ctx.missing("R1", f"{fn}:term", (PHYS, it[5]), "no `count*abundance + ` output found")
+    if base != SPECIES_SEQ and J.path(J.unfilter(base)[0]) != "network.species":
+        ctx.unrec("R1", f"{fn}:species-loop", (PHYS, it[5]), f"the sum ranges over {J.show(base)}, not recognisably the species list")
         return
-    x, guards, sets2 = term
+    ctx.check(base == SPECIES_SEQ and it[7] is None, "R1", f"{fn}:species-loop", (PHYS, it[5]),
+              "the sum ranges over every entry of network.species, each paired with its own abundance symbol",
+              expected="for spec in network.species (unfiltered)", found=J.show(itx) + (f" if {J.show(it[7])}" if it[7] else ""))
+    # the term: the one output of the loop body that mentions the species (other outputs are layout)
+    terms = []
+    for x, env_, guards in J.scan(tree, it[3], env2):
+        if x[0] == "out":
+            e = J.expr_at(tree, x, x[1], env_)
+            if _mentions(e, svar):
+                terms.append((x, e, guards))
+        elif x[0] == "for":
+            ctx.unrec("R1", f"{fn}:term", (PHYS, x[5]), "nested loop inside the species loop: shape not understood")
+            return
+    if len(terms) != 1:
+        (ctx.missing if not terms else ctx.unrec)("R1", f"{fn}:term", (PHYS, it[5]), f"expected one `count*abundance + ` output per species, found {len(terms)}")
+        return
+    x, e, guards = terms[0]
     natom = ("call", ("attr", ("attr", svar, "element_count"), "get"), (FIRST_KEY(evar),), ())
-    parts = [_resolve(p, sets2) for p in x[1][1]]
-    ok = len(parts) == 4 and parts[1] == ("const", "*") and parts[2] == abvar and parts[3] == ("const", " + ") and \
-        parts[0][0] == "call" and parts[0][1][0] == "attr" and parts[0][1][2] == "format" and parts[0][2] == (natom,)
+    got = J.str_pieces(e)
+    ab = [("lit", "*y[IDX_"), ("val", ("attr", svar, "alias")), ("lit", "] + ")]
+    ok = len(got) == 4 and got[0][0] in ("fmt", "val") and got[0][-1] == natom and got[1:] == ab \
+        and (got[0][0] == "val" or re.fullmatch(r"\.\d+[fe]|[eg]", got[0][1]) is not None)
     ctx.check(ok, "R1", f"{fn}:term", (PHYS, x[2]),
               "each term is <count of this element in this species> * <this species' abundance> + ",
-              expected=f"format({J.show(natom)}) ~ '*' ~ {J.show(abvar)} ~ ' + '", found=" ~ ".join(J.show(p) for p in parts))
-    gok = len(guards) == 1 and guards[0][0] == "if+" and _resolve(guards[0][1], sets2) == natom
+              expected=f"format({J.show(natom)}) ~ '*y[IDX_' ~ {J.show(svar)}.alias ~ '] + '",
+              found=" ~ ".join(repr(p[1]) if p[0] == "lit" else J.show(p[-1]) for p in got))
+    tests = [(g[0], J.subst(J.inline_macros(tree, PHYS, g[1]), g[2])) for g in guards]
+    gok = len(tests) == 1 and tests[0] == ("if+", natom)
     ctx.check(gok, "R1", f"{fn}:term-guard", (PHYS, x[2]), "a term is skipped only when the count is zero/absent",
-              found="; ".join(J.show(_resolve(g[1], sets2)) for g in guards))
+              found="; ".join(("" if k == "if+" else "not ") + J.show(t) for k, t in tests))
 
 
 ALLOWED = {
@@ -225,7 +339,7 @@ def _r2(ctx):
     # R3 electrons: one hash value
     hf = pkg.method("Species", "__hash__")
     ctx.saw(SPECIES, "Species.__hash__")
-    paths = hash_paths(hf)
+    paths = hash_paths(hf, resolve=lambda name: pkg.method("Species", name))
     el = [p for p in paths if p[0] == "self.is_electron"]
     ctx.check(len(el) == 1 and not el[0][1], "R3", "Species.__hash__:electron", (SPECIES, hf.lineno),
               "all electron spellings hash to one constant (so e-/E/e share one slot of the species set)",
@@ -233,16 +347,88 @@ def _r2(ctx):
     has_e = any(frozenset(d) == frozenset({("both", "is_electron")}) for d in disj)
     ctx.check(has_e, "R3", "Species.__eq__:electron", (SPECIES, fn.lineno), "all electron spellings compare equal")
     ie = pkg.method("Species", "is_electron")
+    ctx.saw(SPECIES, "Species.is_electron")
+    # constant folding of the predicate for the four spellings (no execution: a whitelisted expression evaluator over the AST)
+    res = {nm: _fold_name_predicate(ie, nm) for nm in ("e", "E", "e-", "E-")}
     src = ast.unparse(ie)
-    lits = set()
-    for n in ast.walk(ie):
+    if any(v is None for v in res.values()):
+        ctx.unrec("R3", "Species.is_electron", (SPECIES, ie.lineno), "is_electron is not a foldable predicate of self.name: " + src[-100:])
+    else:
+        ctx.check(all(res.values()), "R3", "Species.is_electron", (SPECIES, ie.lineno),
+                  "is_electron recognises e, E, e-, E-" if all(res.values()) else
+                  "is_electron misses the spelling(s) " + ", ".join(k for k, v in res.items() if not v) + ": those electrons get their own ODE slot",
+                  found=src[-80:])
+
+
+class _NoFold(Exception):
+    pass
+
+
+def _fold_name_predicate(fn, name):
+    """Value of a property `fn(self)` that depends on self.name only, for self.name == name: straight-line assignments and one
+    return, expressions over string literals, self.name, str methods without side effects, comparisons and boolean operators.
+    None when anything else occurs."""
+    STR_METHODS = {"upper", "lower", "casefold", "strip", "lstrip", "rstrip", "startswith", "endswith", "replace", "rstrip"}
+    selfname = fn.args.args[0].arg if fn.args.args else "self"
+    env = {}
+
+    def ev(n):
+        if isinstance(n, ast.Constant) and isinstance(n.value, (str, bool, int)):
+            return n.value
+        if isinstance(n, ast.Attribute) and isinstance(n.value, ast.Name) and n.value.id == selfname and n.attr == "name":
+            return name
+        if isinstance(n, ast.Name) and n.id in env:
+            return env[n.id]
         if isinstance(n, (ast.List, ast.Tuple, ast.Set)):
-            try:
-                lits |= set(ast.literal_eval(n))
-            except Exception:
-                pass
-    ctx.check({"E", "E-"} <= lits and ".upper()" in src, "R3", "Species.is_electron", (SPECIES, ie.lineno),
-              "is_electron recognises e, E, e-, E- (upper-cased name in ['E','E-'])", found=src[-80:])
+            return [ev(x) for x in n.elts]
+        if isinstance(n, ast.Call) and isinstance(n.func, ast.Attribute) and n.func.attr in STR_METHODS and not n.keywords:
+            recv = ev(n.func.value)
+            if isinstance(recv, str):
+                return getattr(recv, n.func.attr)(*[ev(a) for a in n.args])
+        if isinstance(n, ast.Call) and isinstance(n.func, ast.Name) and n.func.id in ("bool", "len", "str") and len(n.args) == 1 and not n.keywords:
+            return {"bool": bool, "len": len, "str": str}[n.func.id](ev(n.args[0]))
+        if isinstance(n, ast.Compare):
+            left = ev(n.left)
+            for op, c in zip(n.ops, n.comparators):
+                right = ev(c)
+                r = {ast.Eq: lambda: left == right, ast.NotEq: lambda: left != right, ast.In: lambda: left in right,
+                     ast.NotIn: lambda: left not in right}.get(type(op))
+                if r is None:
+                    raise _NoFold()
+                if not r():
+                    return False
+                left = right
+            return True
+        if isinstance(n, ast.BoolOp):
+            vals = [ev(x) for x in n.values]
+            return all(vals) if isinstance(n.op, ast.And) else any(vals)
+        if isinstance(n, ast.UnaryOp) and isinstance(n.op, ast.Not):
+            return not ev(n.operand)
+        if isinstance(n, ast.IfExp):
+            return ev(n.body) if ev(n.test) else ev(n.orelse)
+        if isinstance(n, ast.Subscript) and isinstance(n.slice, ast.Constant) and isinstance(n.slice.value, int):
+            return ev(n.value)[n.slice.value]
+        raise _NoFold()
+
+    def run(stmts):
+        for st in stmts:
+            if isinstance(st, ast.Expr) and isinstance(st.value, ast.Constant):
+                continue
+            if isinstance(st, ast.Assign) and len(st.targets) == 1 and isinstance(st.targets[0], ast.Name):
+                env[st.targets[0].id] = ev(st.value)
+            elif isinstance(st, ast.Return) and st.value is not None:
+                return bool(ev(st.value))
+            elif isinstance(st, ast.If):
+                r = run(st.body if ev(st.test) else st.orelse)
+                if r is not None:
+                    return r
+            else:
+                raise _NoFold()
+        return None
+    try:
+        return run(fn.body)
+    except (_NoFold, Exception):
+        return None
 
 
 MUTANTS = [
@@ -256,6 +442,16 @@ MUTANTS = [
     {"name": "electron-hash-name", "file": SPECIES, "old": '            hash("Electron")\n            if self.is_electron', "new": '            hash(self.name)\n            if self.is_electron', "rules": ["R3"]},
 ]
 MUTANTS += [
+    {"name": "species-len-makes-electron-falsy", "file": SPECIES, "old": "    def __hash__(self) -> int:\n", "new": "    def __len__(self) -> int:\n        return len(self.element_count)\n\n    def __hash__(self) -> int:\n", "rules": ["R0"]},
+    {"name": "electron-case-sensitive", "file": SPECIES, "old": 'return self.name.upper() in ["E", "E-"]', "new": 'return self.name in ["E", "E-"]', "rules": ["R3"]},
+    {"name": "ice-eq-tuple-without-charge", "file": SPECIES, "old": "                    and self.surface_group == o.surface_group\n                    and self.charge == o.charge\n                    and self.basename == o.basename\n", "new": "                    and (self.surface_group, self.basename) == (o.surface_group, o.basename)\n", "rules": ["R2"]},
+    {"name": "matches-collected-in-dict", "file": SPECIES, "old": '        for s, e, n in zip(starts, ends, matchnames):\n            # if there is replacement, save the element name with the new value\n            n = self._replacement.get(n, n)\n            if e != s:\n                substring = parsename[e:s]\n                if substring.isdigit():\n                    self._add_element_count(n, int(parsename[e:s]))\n                else:\n                    raise RuntimeError(\n                        f\'Unrecongnized name: "{substring}" in "{self.name}"\'\n                    )\n            else:\n                if n in symbols:\n                    self._add_element_count(n, 0)\n                elif n:\n                    self._add_element_count(n, 1)\n', "new": '        # Go through the name once: check everything between two matches is a\n        # number before anything is saved in the instance, and build the name\n        # with the replaced element names at the same time\n        newname = ""\n        components = {}\n        for s, e, n in zip(starts, ends, matchnames):\n            # if there is replacement, save the element name with the new value\n            n = self._replacement.get(n, n)\n            substring = parsename[e:s]\n            if substring and not substring.isdigit():\n                raise RuntimeError(\n                    f\'Unrecongnized name: "{substring}" in "{self.name}"\'\n                )\n            newname = f"{newname}{n}{substring}"\n            if n:\n                components[n] = int(substring) if substring else int(n not in symbols)\n\n        for n, count in components.items():\n            self._add_element_count(n, count)\n', "rules": ["R6"]},
+    {"name": "eq-guard-clauses-ice-without-charge", "file": SPECIES, "old": '        if isinstance(o, Species):\n            return (\n                (self.is_electron and o.is_electron)\n                or (\n                    self.is_grain\n                    and o.is_grain\n                    and self.grain_group == o.grain_group\n                    and self.charge == o.charge\n                )\n                or (\n                    self.is_surface\n                    and o.is_surface\n                    and self.surface_group == o.surface_group\n                    and self.charge == o.charge\n                    and self.basename == o.basename\n                )\n                or self.name == o.name\n            )\n            # return (self.is_electron and o.is_electron) or self.name == o.name\n        return NotImplemented\n', "new": '        if not isinstance(o, Species):\n            return NotImplemented\n        if self.is_electron and o.is_electron:\n            return True\n        if self.is_grain and o.is_grain:\n            if self.grain_group == o.grain_group and self.charge == o.charge:\n                return True\n        if self.is_surface and o.is_surface:\n            same_group = self.surface_group == o.surface_group\n            if same_group and self.basename == o.basename:\n                return True\n        return self.name == o.name\n', "rules": ["R2"]},
+    {"name": "hash-guard-clause-electron-by-name", "file": SPECIES, "old": '        return (\n            hash("Electron")\n            if self.is_electron\n            else hash(\n                f"{self.basename}"\n                f"{self.charge}"\n                f"{self.is_grain}"\n                f"{self.grain_group}"\n                f"{self.is_surface}"\n                f"{self.surface_group}"\n            )\n        )\n\n', "new": '        if self.is_electron:\n            return hash(self.name)\n        identity = (self.basename, self.charge, self.is_grain, self.grain_group, self.is_surface, self.surface_group)\n        return hash("".join(str(part) for part in identity))\n\n', "rules": ["R3"]},
+    {"name": "element-count-get-of-other-key", "file": SPECIES, "old": "        if element in self.element_count.keys():\n            self.element_count[element] += count\n        else:\n            self.element_count[element] = count\n", "new": "        self.element_count[element] = self.element_count.get(self.name, 0) + count\n", "rules": ["R6"]},
+    {"name": "abund-of-other-list", "file": PHYS, "old": "zip(network.species, specabund)", "new": "zip(network.species | sort(attribute='name'), specabund)", "rules": ["R1"]},
+    {"name": "term-count-of-element-species", "file": PHYS, "old": '{{ "{:.1f}".format(natom) ~ "*" ~ ab ~ " + "}}', "new": '{{ "{:.1f}*{} + ".format(elem.element_count.get(elemname), ab) }}', "rules": ["R1"]},
+    {"name": "macro-header-last-key", "file": MACROS, "old": "#define IDX_ELEM_{{ spec.element_count.keys() | first }} {{ loop.index0 }}", "new": "{% set sym = spec.element_count | last %}\n#define IDX_ELEM_{{ sym }} {{ loop.index0 }}", "rules": ["R1"]},
     {"name": "element-count-dict-update", "file": SPECIES, "old": "        if element in self.element_count.keys():\n            self.element_count[element] += count\n        else:\n            self.element_count[element] = count\n", "new": "        self.element_count.update({element: count})\n", "rules": ["R6"]},
     {"name": "element-count-overwrite", "file": SPECIES, "old": "        if element in self.element_count.keys():\n            self.element_count[element] += count\n        else:\n            self.element_count[element] = count\n", "new": "        self.element_count[element] = count\n", "rules": ["R6"]},
     {"name": "cvode-fex-zeroes-exhausted", "file": "naunet/templates/cvode/src/naunet_fex.cpp.j2", "old": "#if ((NHEATPROCS || NCOOLPROCS) && NAUNET_DEBUG)\n    printf(\"Total heating/cooling rate", "new": "    for (int i = 0; i < NSPECIES; i++) {\n        if (y[i] <= 0.0 && ydot[i] < 0.0) ydot[i] = 0.0;\n    }\n#if ((NHEATPROCS || NCOOLPROCS) && NAUNET_DEBUG)\n    printf(\"Total heating/cooling rate", "rules": ["R5"]},
@@ -263,5 +459,18 @@ MUTANTS += [
     {"name": "alias-single-M", "file": SPECIES, "old": 'else "M" * abs(self.charge),', "new": 'else "M",', "rules": ["R4"]},
 ]
 BENIGN = [
+    {"name": "electron-lowercase-tuple", "file": SPECIES, "old": 'return self.name.upper() in ["E", "E-"]', "new": 'return self.name.lower() in ("e", "e-")'},
+    {"name": "ice-eq-tuple-compare", "file": SPECIES, "old": "                    and self.surface_group == o.surface_group\n                    and self.charge == o.charge\n                    and self.basename == o.basename\n", "new": "                    and (self.surface_group, self.charge, self.basename) == (o.surface_group, o.charge, o.basename)\n"},
+    # (not output-identical for repeated surface/grain symbols, but composition-preserving: the property holds, the check must be silent)
+    {"name": "matches-collected-in-adding-dict", "file": SPECIES, "old": '        for s, e, n in zip(starts, ends, matchnames):\n            # if there is replacement, save the element name with the new value\n            n = self._replacement.get(n, n)\n            if e != s:\n                substring = parsename[e:s]\n                if substring.isdigit():\n                    self._add_element_count(n, int(parsename[e:s]))\n                else:\n                    raise RuntimeError(\n                        f\'Unrecongnized name: "{substring}" in "{self.name}"\'\n                    )\n            else:\n                if n in symbols:\n                    self._add_element_count(n, 0)\n                elif n:\n                    self._add_element_count(n, 1)\n', "new": '        # Go through the name once: check everything between two matches is a\n        # number before anything is saved in the instance, and build the name\n        # with the replaced element names at the same time\n        newname = ""\n        components = {}\n        for s, e, n in zip(starts, ends, matchnames):\n            # if there is replacement, save the element name with the new value\n            n = self._replacement.get(n, n)\n            substring = parsename[e:s]\n            if substring and not substring.isdigit():\n                raise RuntimeError(\n                    f\'Unrecongnized name: "{substring}" in "{self.name}"\'\n                )\n            newname = f"{newname}{n}{substring}"\n            if n:\n                components[n] = components.get(n, 0) + (int(substring) if substring else int(n not in symbols))\n\n        for n, count in components.items():\n            self._add_element_count(n, count)\n'},
+    {"name": "eq-guard-clauses", "file": SPECIES, "old": '        if isinstance(o, Species):\n            return (\n                (self.is_electron and o.is_electron)\n                or (\n                    self.is_grain\n                    and o.is_grain\n                    and self.grain_group == o.grain_group\n                    and self.charge == o.charge\n                )\n                or (\n                    self.is_surface\n                    and o.is_surface\n                    and self.surface_group == o.surface_group\n                    and self.charge == o.charge\n                    and self.basename == o.basename\n                )\n                or self.name == o.name\n            )\n            # return (self.is_electron and o.is_electron) or self.name == o.name\n        return NotImplemented\n', "new": '        if not isinstance(o, Species):\n            return NotImplemented\n        if self.is_electron and o.is_electron:\n            return True\n        if self.is_grain and o.is_grain:\n            if self.grain_group == o.grain_group and self.charge == o.charge:\n                return True\n        if self.is_surface and o.is_surface:\n            same_group = self.surface_group == o.surface_group\n            if same_group and self.charge == o.charge and self.basename == o.basename:\n                return True\n        return self.name == o.name\n'},
+    {"name": "hash-guard-clause", "file": SPECIES, "old": '        return (\n            hash("Electron")\n            if self.is_electron\n            else hash(\n                f"{self.basename}"\n                f"{self.charge}"\n                f"{self.is_grain}"\n                f"{self.grain_group}"\n                f"{self.is_surface}"\n                f"{self.surface_group}"\n            )\n        )\n\n', "new": '        if self.is_electron:\n            return hash("Electron")\n        identity = (self.basename, self.charge, self.is_grain, self.grain_group, self.is_surface, self.surface_group)\n        return hash("".join(str(part) for part in identity))\n\n'},
+    {"name": "element-count-get-plus", "file": SPECIES, "old": "        if element in self.element_count.keys():\n            self.element_count[element] += count\n        else:\n            self.element_count[element] = count\n", "new": "        self.element_count[element] = self.element_count.get(element, 0) + count\n"},
+    {"name": "abund-symbol-per-species", "edits": [
+        {"file": PHYS, "old": '        {% set specabund = network.species | map(attribute="alias") | map("prefix", "y[IDX_") | map("suffix", "]") -%}\n', "new": ""},
+        {"file": PHYS, "old": "        return {% for spec, ab in zip(network.species, specabund) -%}\n", "new": '        return {% for spec in network.species -%}\n               {% set ab = spec.alias | prefix("y[IDX_") | suffix("]") -%}\n'}]},
+    {"name": "term-one-format-string", "file": PHYS, "old": '{{ "{:.1f}".format(natom) ~ "*" ~ ab ~ " + "}}', "new": '{{ "{:.1f}*{} + ".format(natom, ab) }}'},
+    {"name": "guard-uses-set-name", "file": PHYS, "old": "if (elemidx == IDX_ELEM_{{ elem.element_count.keys() | first }}) {", "new": "if (elemidx == IDX_ELEM_{{ elemname }}) {"},
+    {"name": "macro-header-set-name", "file": MACROS, "old": "#define IDX_ELEM_{{ spec.element_count.keys() | first }} {{ loop.index0 }}", "new": "{% set sym = spec.element_count | first %}\n#define IDX_ELEM_{{ sym }} {{ loop.index0 }}"},
     {"name": "eq-disjuncts-reordered", "file": SPECIES, "old": "                (self.is_electron and o.is_electron)\n                or (", "new": "                self.name == o.name\n                or (self.is_electron and o.is_electron)\n                or ("},
 ]
